@@ -260,7 +260,7 @@ theorem searchCore_sound (hinv : Inv s) (k : Nat) :
     have hnd : ((Pmax.drain sel).map (·.vid)).Nodup := ((hperm.map (·.vid)).nodup_iff).mpr hsel.nodup
     -- unfold the result
     have hr : r = ((Pmax.drain sel).take k).reverse.filterMap fun it =>
-        (s.verts it.vid).map fun x => (⟨x.id, x.md, it.score⟩ : Hit) := by
+        (s.verts it.vid).bind fun x => if x.deleted then none else some (⟨x.id, x.md, it.score⟩ : Hit) := by
       simp only [r, searchCore, hent, hdesc, hselq]
     -- a non-tombstoned vertex is allocated
     have alloc : ∀ v, s.isDeleted v = false → ∃ x, s.verts v = some x ∧ x.deleted = false := by
@@ -287,17 +287,17 @@ theorem searchCore_sound (hinv : Inv s) (k : Nat) :
       rw [← hL, List.length_reverse, List.length_take]; omega
     -- the filterMap never drops anything and maps item `it` to its hit
     have hmap : ∀ (L : List Item), (∀ it ∈ L, it ∈ Pmax.drain sel) →
-        L.filterMap (fun it => (s.verts it.vid).map fun x => (⟨x.id, x.md, it.score⟩ : Hit)) =
+        L.filterMap (fun it => (s.verts it.vid).bind fun x => if x.deleted then none else some (⟨x.id, x.md, it.score⟩ : Hit)) =
         L.map (fun it => (⟨s.idOf it.vid, s.mdOf it.vid, it.score⟩ : Hit)) := by
       intro L
       induction L with
       | nil => intro _; rfl
       | cons a t ih =>
         intro hm
-        obtain ⟨x, hx, _⟩ := alloc a.vid (hitem a (hm a List.mem_cons_self)).1
+        obtain ⟨x, hx, hxd⟩ := alloc a.vid (hitem a (hm a List.mem_cons_self)).1
         have h1 : s.idOf a.vid = x.id := by simp [Index.idOf, hx]
         have h2 : s.mdOf a.vid = x.md := by simp [Index.mdOf, hx]
-        simp only [List.filterMap_cons, hx, Option.map_some, List.map_cons, h1, h2]
+        simp only [List.filterMap_cons, hx, Option.bind_some, hxd, Bool.false_eq_true, if_false, List.map_cons, h1, h2]
         rw [ih (fun it hit => hm it (List.mem_cons_of_mem _ hit))]
     rw [hmap L hLmem] at hr
     refine ⟨?_, ?_, ?_, ?_, ?_⟩
